@@ -52,8 +52,22 @@ Theorem check_obs_sound (o : obs) :
               In (rkey r) (assoc (o_d o)) /\ above_cursor (o_d o) r = true.
 Proof.
   unfold check_obs. intros H Hc k i. rewrite Hc in H.
-  rewrite !andb_true_iff in H. destruct H as [[[H1 H2] _] _].
+  rewrite !andb_true_iff in H. destruct H as [[[[H1 H2] _] _] _].
   rewrite <- expected_In. rewrite subset_In in H1, H2. split; intro Hx; [apply H1|apply H2]; exact Hx.
+Qed.
+
+(** ... and in an accepted observation every stored row of the topic's log is a row of a resolved
+    log, so "stored operation of the topic" may be read for "row of an associated log". *)
+Theorem check_obs_assoc (o : obs) :
+  check_obs o = true ->
+  forall r, In r (rows (o_d o)) -> r_log r = tlog -> In (rkey r) (assoc (o_d o)).
+Proof.
+  unfold check_obs. intros H r Hin Hl.
+  rewrite !andb_true_iff in H. destruct H as [_ Ha].
+  unfold assoc_complete in Ha. rewrite forallb_forall in Ha. specialize (Ha r Hin).
+  apply orb_true_iff in Ha. destruct Ha as [Ha|Ha].
+  - apply negb_true_iff in Ha. apply N.eqb_neq in Ha. contradiction.
+  - apply in_assoc_In. exact Ha.
 Qed.
 
 (** A partial observation (the crash came while the replay was being consumed) accepted by the
@@ -65,6 +79,6 @@ Theorem check_obs_partial_sound (o : obs) :
               In (rkey r) (assoc (o_d o)) /\ above_cursor (o_d o) r = true.
 Proof.
   unfold check_obs. intros H k i Hin.
-  rewrite !andb_true_iff in H. destruct H as [[[H1 _] _] _].
+  rewrite !andb_true_iff in H. destruct H as [[[[H1 _] _] _] _].
   rewrite subset_In in H1. apply expected_In. apply H1. exact Hin.
 Qed.
